@@ -159,7 +159,7 @@ Fixpoint ref_eval (ns : list pnode) (v : jv) : list jv :=
   | [] => [v]
   | NSel n :: r => match v with JObj ms => flat_map (ref_eval r) (members_named n ms) | _ => [] end
   | NIdx i :: r => match v with
-                   | JArr es => if (i <? 0)%Z then [] else
+                   | JArr es => if ((i <? 0) || (Z.of_nat (length es) <=? i))%Z then [] else
                                 match nth_error es (Z.to_nat i) with Some e => ref_eval r e | None => [] end
                    | _ => []
                    end
@@ -175,7 +175,7 @@ Fixpoint fits (ns : list pnode) (v : jv) : bool :=
   | [] => true
   | NSel n :: r => match v with JObj ms => forallb (fits r) (members_named n ms) | _ => false end
   | NIdx i :: r => match v with
-                   | JArr es => if (i <? 0)%Z then true else
+                   | JArr es => if ((i <? 0) || (Z.of_nat (length es) <=? i))%Z then true else
                                 match nth_error es (Z.to_nat i) with Some e => fits r e | None => true end
                    | _ => false
                    end
